@@ -1,3 +1,4 @@
+import Hcl.Proofs.AcceptedValid
 import Hcl.Graph.TopoSort
 
 /-!
@@ -113,3 +114,72 @@ def exK2 : KGraph :=
     preds := fun v => if v = "b" then ["a"] else if v = "c" then ["a", "b"] else [],
     numEdges := 3 }
 example : topologicalSort exK2 { nodes := exK2.nodes, succ := exK2.succ } = .ok ["a", "b", "c"] := by decide
+
+/-! ### for every accepted program -/
+
+/-- the dependency graph of a list of value-writing actions: `u → v` when the action driving `v` reads `u` -/
+def depGraph (acts : List Action) : Graph :=
+  { nodes := acts.map Action.out
+    succ := fun u => (acts.filter (fun a => a.reads.contains u)).map Action.out }
+
+theorem sched_split (avail : List String) (l1 : List Action) (a : Action) (l2 : List Action)
+    (h : Sched avail (l1 ++ a :: l2)) : ∀ r ∈ a.reads, r ∈ avail ∨ r ∈ writesOf l1 := by
+  rw [sched_append] at h
+  intro r hr
+  have := h.2.1 r hr
+  exact List.mem_append.mp this
+
+/-- **C10 for every accepted program**: the dependency graph of an accepted program's value-writing actions (wire `u`
+    → wire `v` when the definition or component driving `v` reads `u`) has no cycle: a program with a combinational
+    loop is never accepted, under any iteration order. -/
+theorem C10_accepted_acyclic (fl : Flags) (cls : CharClass) (o : Orders) (stmts : List Stmt) (p : Program)
+    (ho : OrdersOK o) (hwf : StmtsWF stmts)
+    (h : Program.new fl cls o y86FixedFunctions stmts = .ok p) :
+    ∃ pre fin, p.actions = pre ++ fin ∧ (∀ a ∈ fin, a.isPure = false) ∧ ¬ ∃ c, IsCycle (depGraph pre) c := by
+  obtain ⟨pre, fin, known, hsplit, hv, hfin, hsched, hknown, _⟩ := Program_new_valid fl cls o stmts p ho hwf h
+  refine ⟨pre, fin, hsplit, hfin, ?_⟩
+  have hnd : (pre.map Action.out).Nodup := by
+    have : ∀ (l : List Action) (before : List String), ValidFrom before l → (l.map Action.out).Nodup := by
+      intro l
+      induction l with
+      | nil => intro _ _; simp
+      | cons a rest ih =>
+        intro before hvl
+        simp only [List.map_cons, List.nodup_cons]
+        exact ⟨hvl.2.2.1, ih _ hvl.2.2.2.2⟩
+    exact this pre [] hv
+  -- rank: position of the output among the outputs (0 for wires nobody drives)
+  apply no_cycle_of_rank (depGraph pre) (fun u => if u ∈ pre.map Action.out then (pre.map Action.out).idxOf u + 1 else 0)
+  intro u v huv
+  simp only [depGraph, List.mem_map, List.mem_filter] at huv
+  obtain ⟨a, ⟨ha, hread⟩, rfl⟩ := huv
+  have hur : u ∈ a.reads := by simpa using hread
+  obtain ⟨l1, l2, hl⟩ := List.append_of_mem ha
+  have hreads := sched_split known l1 a l2 (by rw [← hl]; exact hsched) u hur
+  have hvmem : a.out ∈ pre.map Action.out := List.mem_map.mpr ⟨a, ha, rfl⟩
+  -- the position of a's output is the length of l1
+  have hnotin : a.out ∉ l1.map Action.out := by
+    rw [hl, List.map_append, List.map_cons, List.nodup_append] at hnd
+    intro hm
+    exact hnd.2.2 _ hm _ List.mem_cons_self rfl
+  have hidx : (pre.map Action.out).idxOf a.out = l1.length := by
+    rw [hl, List.map_append, List.map_cons, idxOf_append_cons_of_not_mem _ _ _ hnotin, List.length_map]
+  simp only [hvmem, if_true, hidx]
+  by_cases hum : u ∈ pre.map Action.out
+  · simp only [hum, if_true]
+    rcases hreads with h1 | h1
+    · exact absurd hum (hknown u h1)
+    · -- u is written by an action of l1
+      simp only [writesOf, List.mem_flatMap] at h1
+      obtain ⟨b, hb, hub⟩ := h1
+      have hbpure : b.isPure = true := validFrom_pure pre [] hv b (by rw [hl]; exact List.mem_append_left _ hb)
+      rw [pure_writes b hbpure] at hub
+      simp at hub
+      have hu1 : u ∈ l1.map Action.out := List.mem_map.mpr ⟨b, hb, hub.symm⟩
+      have : (pre.map Action.out).idxOf u < l1.length := by
+        rw [hl, List.map_append, List.idxOf_append]
+        simp only [hu1, if_true]
+        have := idxOf_lt_of_mem _ _ hu1
+        simpa using this
+      omega
+  · simp only [hum, if_false]; omega
